@@ -258,22 +258,45 @@ impl<S: BuildHasher + Default + Clone + Send + Sync + 'static> ConcurrentSet
                 let mut vec = vec_lock.write();
 
                 // Upgrade to large storage if exceed threshold
-                if vec.len() == 32 {
-                    let large_set = DashSet::with_hasher(S::default());
-
-                    for item in vec.drain(..) {
-                        large_set.insert(item);
-                    }
-
-                    let result = large_set.insert(element);
-
+                if vec.len() >= 32 {
                     drop(vec);
                     drop(read);
 
                     #[cfg(feature = "verif")]
                     qbice_storage::verif::thread_point("bes_upgrade_window");
 
-                    *self.0.write() = TieredStorage::Large(large_set);
+                    // The upgrade needs the whole structure exclusively: with
+                    // only the inner lock held, another thread could push
+                    // into the vector after it has been moved to the large
+                    // set and before the large set is installed, and that
+                    // element would be lost.
+                    let mut write = self.0.write();
+
+                    let previous = std::mem::replace(
+                        &mut *write,
+                        TieredStorage::Large(DashSet::with_hasher(
+                            S::default(),
+                        )),
+                    );
+
+                    let large_set = match previous {
+                        TieredStorage::Small(vec_lock) => {
+                            let large_set = DashSet::with_hasher(S::default());
+
+                            for item in vec_lock.into_inner() {
+                                large_set.insert(item);
+                            }
+
+                            large_set
+                        }
+
+                        // somebody else has upgraded in the meantime
+                        TieredStorage::Large(set) => set,
+                    };
+
+                    let result = large_set.insert(element);
+
+                    *write = TieredStorage::Large(large_set);
 
                     result
                 } else {
